@@ -16,6 +16,7 @@
 #include "sqfs/io.h"
 
 #include "util/util.h"
+#include "util/rbtree.h"
 
 #include <stdlib.h>
 #include <string.h>
@@ -34,10 +35,33 @@ typedef struct {
 	sqfs_dir_reader_t *rd;
 	sqfs_id_table_t *id;
 
-	/* inode numbers of this directory and all directories above it */
-	sqfs_u32 *ancestors;
-	size_t num_ancestors;
+	/*
+	  Inode numbers of all directories entered so far, shared between an
+	  iterator and the sub directory iterators created from it.
+	 */
+	struct dir_set_t *dirs;
 } iterator_t;
+
+typedef struct dir_set_t {
+	size_t refcount;
+	rbtree_t seen;
+} dir_set_t;
+
+static int compare_inode_num(const void *ctx, const void *lhs, const void *rhs)
+{
+	sqfs_u32 l = *((const sqfs_u32 *)lhs), r = *((const sqfs_u32 *)rhs);
+	(void)ctx;
+
+	return l < r ? -1 : (l > r ? 1 : 0);
+}
+
+static void dir_set_drop(dir_set_t *set)
+{
+	if (set != NULL && --(set->refcount) == 0) {
+		rbtree_cleanup(&set->seen);
+		free(set);
+	}
+}
 
 static int create_iterator(sqfs_dir_reader_t *rd, sqfs_id_table_t *id,
 			   sqfs_data_reader_t *data,
@@ -125,9 +149,10 @@ static int it_open_subdir(sqfs_dir_iterator_t *base, sqfs_dir_iterator_t **out)
 		return SQFS_ERROR_NOT_DIR;
 	}
 
-	for (size_t i = 0; i < it->num_ancestors; ++i) {
-		if (it->ancestors[i] == it->inode->base.inode_number)
-			return SQFS_ERROR_LINK_LOOP;
+	/* a directory can only be reachable through a single entry */
+	if (rbtree_lookup(&it->dirs->seen,
+			  &it->inode->base.inode_number) != NULL) {
+		return SQFS_ERROR_LINK_LOOP;
 	}
 
 	return create_iterator(it->rd, it->id, it->data, it->xattr,
@@ -182,7 +207,7 @@ static void it_destroy(sqfs_object_t *obj)
 	sqfs_drop(it->rd);
 	sqfs_drop(it->data);
 	sqfs_drop(it->xattr);
-	free(it->ancestors);
+	dir_set_drop(it->dirs);
 	sqfs_free(it);
 }
 
@@ -194,7 +219,6 @@ static int create_iterator(sqfs_dir_reader_t *rd, sqfs_id_table_t *id,
 			   sqfs_dir_iterator_t **out)
 {
 	sqfs_dir_iterator_t *base;
-	size_t pcount = 0;
 	iterator_t *it;
 	int ret;
 
@@ -206,26 +230,38 @@ static int create_iterator(sqfs_dir_reader_t *rd, sqfs_id_table_t *id,
 
 	sqfs_object_init(it, it_destroy, NULL);
 
-	if (parent != NULL)
-		pcount = parent->num_ancestors;
+	if (parent != NULL) {
+		it->dirs = parent->dirs;
+		it->dirs->refcount += 1;
+	} else {
+		it->dirs = calloc(1, sizeof(*(it->dirs)));
+		if (it->dirs == NULL) {
+			sqfs_free(it);
+			return SQFS_ERROR_ALLOC;
+		}
 
-	it->ancestors = alloc_array(sizeof(it->ancestors[0]), pcount + 1);
-	if (it->ancestors == NULL) {
+		ret = rbtree_init(&it->dirs->seen, sizeof(sqfs_u32),
+				  sizeof(sqfs_u32), compare_inode_num);
+		if (ret != 0) {
+			free(it->dirs);
+			sqfs_free(it);
+			return ret;
+		}
+
+		it->dirs->refcount = 1;
+	}
+
+	ret = rbtree_insert(&it->dirs->seen, &inode->base.inode_number,
+			    &inode->base.inode_number);
+	if (ret != 0) {
+		dir_set_drop(it->dirs);
 		sqfs_free(it);
-		return SQFS_ERROR_ALLOC;
+		return ret;
 	}
-
-	if (pcount > 0) {
-		memcpy(it->ancestors, parent->ancestors,
-		       pcount * sizeof(it->ancestors[0]));
-	}
-
-	it->ancestors[pcount] = inode->base.inode_number;
-	it->num_ancestors = pcount + 1;
 
 	ret = sqfs_dir_reader_open_dir(rd, inode, &it->state, 0);
 	if (ret) {
-		free(it->ancestors);
+		dir_set_drop(it->dirs);
 		sqfs_free(it);
 		return ret;
 	}
